@@ -99,6 +99,9 @@ class FnEval:
         if len(whole) != len(defs):
             return None
         if len(defs) > 1:
+            mono = self._monotone_counter(local, defs, depth)
+            if mono is not None:
+                return mono
             # join over all definitions (mutable counters: only if every def is bounded without self-reference)
             out = None
             for d in defs:
@@ -108,6 +111,122 @@ class FnEval:
                 out = r if out is None else (min(out[0], r[0]), max(out[1], r[1]))
             return out
         return self._def_ival(local, defs[0], depth)
+
+    def _step_of(self, local, d):
+        """('add'|'sub', k, operand reading the counter) when definition d is `local = local +/- k` (k constant >= 0),
+        possibly through one temporary."""
+        if d[2] != "A":
+            return None
+        rv = d[3][2]
+        if rv[0] == "use" and rv[1][0] in ("cp", "mv") and len(rv[1][1]) == 1:
+            dd = self.b.single_def(rv[1][1][0])
+            if not dd or dd[2] != "A":
+                return None
+            rv = dd[3][2]
+        if rv[0] != "bin" or rv[1] not in ("Add", "AddUnchecked", "Sub", "SubUnchecked"):
+            return None
+        k = const_int(rv[3])
+        src = rv[2]
+        if k is None and rv[1].startswith("Add"):
+            k = const_int(rv[2])
+            src = rv[3]
+        if k is None or k < 0:
+            return None
+        l = operand_local(src)
+        for _ in range(6):
+            if l is None:
+                return None
+            if l == local:
+                return ("add" if rv[1].startswith("Add") else "sub", k, src)
+            dd = self.b.single_def(l)
+            if dd and dd[2] == "A" and dd[3][2][0] == "use":
+                l = operand_local(dd[3][2][1])
+            else:
+                return None
+        return None
+
+    def _guard_on_counter(self, local, d):
+        """Bounds on the value of `local` as read by its own step definition d, from a branch edge `local <cmp> const`
+        that dominates the step with no other definition of the local in between."""
+        bi, si = d[0], d[1]
+        for x in self.b.defs().get(local, []):
+            if x[0] == bi and x is not d and isinstance(x[1], int) and isinstance(si, int) and x[1] < si:
+                return None
+        res = None
+        for (gk, greads, lo, hi, efrom, eto) in self.value_guards():
+            if gk != ("l", local):
+                continue
+            if not (eto == bi or self.b.dominates(eto, bi)):
+                continue
+            preds = [p for p in self.b.pred[eto] if p in self.b.reachset]
+            if any(p != efrom for p in preds):
+                continue
+            # no definition of the local on a path eto -> bi (other than in bi itself, checked above)
+            ok = True
+            if eto != bi:
+                seen = set()
+                st = [eto]
+                while st and ok:
+                    x = st.pop()
+                    if x in seen or x == bi:
+                        continue
+                    seen.add(x)
+                    if any(dd[0] == x for dd in self.b.defs().get(local, [])):
+                        ok = False
+                    st.extend(y for y in self.b.succ[x] if self.b.dominates(eto, y))
+            # the guard's own read of the local must be in efrom (no definition between the comparison and the edge)
+            if any(dd[0] == efrom and dd is not d for dd in self.b.defs().get(local, [])):
+                # a definition in the comparing block: only fine when it precedes the comparison; be conservative
+                ok = False
+            if ok:
+                res = (lo, hi) if res is None else (max(res[0], lo), min(res[1], hi))
+        return res
+
+    def _monotone_counter(self, local, defs, depth):
+        """`let mut t = C; while t > 0 { t -= 1; .. }` / `let mut i = 0; while i < n { ..; i += 1 }`: every definition is
+        an initialisation that does not read the counter or a step in one direction.  The counter stays between its
+        initial values and what the guard dominating each step lets through."""
+        inits, steps = [], []
+        for d in defs:
+            st = self._step_of(local, d)
+            if st is not None:
+                steps.append((d, st))
+            else:
+                inits.append(d)
+        if not steps or not inits or len(set(st[0] for _d, st in steps)) != 1:
+            return None
+        tr = self.ty_range(self.ty(local))
+        if tr[1] == INF:
+            return None
+        lo = hi = None
+        for d in inits:
+            r = self._def_ival(local, d, depth + 1)
+            if r is None:
+                return None
+            lo = r[0] if lo is None else min(lo, r[0])
+            hi = r[1] if hi is None else max(hi, r[1])
+        direction = steps[0][1][0]
+        for d, (kind, k, src) in steps:
+            save = self.at
+            self.at = d[0]
+            try:
+                ov = self.op_ival(src, d[0], depth + 1)    # the counter as read by the step, refined by dominating guards
+            finally:
+                self.at = save
+            if ov is None:
+                ov = tr
+            g = self._guard_on_counter(local, d)
+            if g is not None:
+                ov = (max(ov[0], g[0]), min(ov[1], g[1]))
+            if direction == "sub":
+                if ov[0] - k < tr[0]:
+                    return None          # may wrap below zero
+                lo = min(lo, ov[0] - k)
+            else:
+                if ov[1] + k > tr[1] or ov[1] >= tr[1] or ov[1] >= (1 << 62):
+                    return None          # no upper guard (the type's maximum is not a bound)
+                hi = max(hi, ov[1] + k)
+        return (lo, hi)
 
     def _def_ival(self, local, d, depth):
         r = self._def_ival0(local, d, depth)
@@ -215,6 +334,33 @@ class FnEval:
             res = (lo, hi) if res is None else (max(res[0], lo), min(res[1], hi))
         return res
 
+    def _op_at(self, o, d, depth):
+        """Interval of operand o as read by definition d.  For a multiply-defined local with a definition earlier in the
+        same block, only that definition reaches the read (`t -= 1; .. k[t >> 3]`)."""
+        if o[0] in ("cp", "mv") and len(o[1]) == 1 and isinstance(d[1], int):
+            l = o[1][0]
+            ds = self.b.defs().get(l, [])
+            if len(ds) > 1:
+                prev = [x for x in ds if x[0] == d[0] and isinstance(x[1], int) and x[1] < d[1]]
+                if prev:
+                    dd = max(prev, key=lambda x: x[1])
+                    st = self._step_of(l, dd)
+                    if st is not None and dd[2] == "A":
+                        base = self.ival(l, d[0], depth + 1)
+                        g = self._guard_on_counter(l, dd)
+                        if base is not None:
+                            if g is not None:
+                                base = (max(base[0], g[0]), min(base[1], g[1]))
+                            r = (base[0] - st[1], base[1] - st[1]) if st[0] == "sub" else (base[0] + st[1], base[1] + st[1])
+                            tr = self.ty_range(self.ty(l))
+                            if tr[1] != INF and r[0] >= tr[0] and r[1] <= tr[1]:
+                                return r
+                    elif dd[2] in ("A", "call"):
+                        r = self._def_ival(l, dd, depth + 1)
+                        if r is not None:
+                            return r
+        return self.op_ival(o, None, depth)
+
     def _def_ival0(self, local, d, depth):
         if d[2] == "call":
             t = d[3]
@@ -236,7 +382,7 @@ class FnEval:
         k = rv[0]
         if k == "use":
             o = rv[1]
-            r = self.op_ival(o, None, depth)
+            r = self._op_at(o, d, depth)
             if r is not None:
                 return r
             # payload of an iterator's next(): `(_opt as Some).0`
@@ -244,7 +390,7 @@ class FnEval:
                 return self.iter_payload(o[1][0])
             return None
         if k == "cast":
-            r = self.op_ival(rv[2], None, depth)
+            r = self._op_at(rv[2], d, depth)
             if r is None:
                 return None
             td = self.f.ty(rv[3])
@@ -254,8 +400,8 @@ class FnEval:
             return None
         if k == "bin":
             op = rv[1]
-            a = self.op_ival(rv[2], None, depth)
-            c = self.op_ival(rv[3], None, depth)
+            a = self._op_at(rv[2], d, depth)
+            c = self._op_at(rv[3], d, depth)
             if op == "BitAnd":
                 # x & c is within [0, c] for non-negative c
                 hi = None
@@ -771,10 +917,19 @@ class FnEval:
             if rv[0] in ("ref", "rawptr"):
                 pl = rv[2]
                 if len(pl) == 2 and pl[1] == "*":
+                    m = pl[0]
+                    if len([x for x in self.b.defs().get(m, []) if x[2] in ("A", "call")]) > 1 and self.ty(m).get("k") in ("ref", "ptr"):
+                        # a slice variable that is re-assigned (`rem = tail`): its current length, valid while no
+                        # re-assignment lies between the reads (checked by reads_consistent)
+                        reads.append((m, d[0]))
+                        return ("lenl", m)
                     return self.len_key(["cp", [pl[0]]], reads, depth + 1)
                 iv = self.place_len(pl, None, 0)
                 if iv is not None and iv[0] == iv[1]:
                     return ("k", int(iv[0]))
+                if len(pl) == 1 and pl[0] != 0 and pl[0] <= self.fn["argc"] and not self.b.defs().get(pl[0]):
+                    # `&param` of a generic `impl AsRef<[u8]>` parameter (then `.as_ref()`): the length of what it denotes
+                    return ("len", pl[0])
                 return None
             if rv[0] == "use":
                 o = rv[1]
@@ -782,7 +937,17 @@ class FnEval:
                     dd = self.b.single_def(o[1][0])
                     if dd and dd[2] == "A" and dd[3][2][0] == "agg" and o[1][1][1] < len(dd[3][2][2]):
                         return self.len_key(dd[3][2][2][o[1][1][1]], reads, depth + 1)
+                    if dd and dd[2] == "call" and (dd[3][1]["f"].endswith("::split_at") or dd[3][1]["f"].endswith("::split_at_mut")):
+                        mid = self.expr_key(dd[3][2][1], reads, depth + 1)
+                        if o[1][1][1] == 0:
+                            return mid
+                        base = self.len_key(dd[3][2][0], reads, depth + 1)
+                        return ("Sub", base, mid) if base is not None else None
                     return None
+                if o[0] in ("cp", "mv") and len(o[1]) == 1 and len([x for x in self.b.defs().get(o[1][0], []) if x[2] in ("A", "call")]) > 1 \
+                        and self.ty(o[1][0]).get("k") in ("ref", "ptr"):
+                    reads.append((o[1][0], d[0]))
+                    return ("lenl", o[1][0])
                 return self.len_key(rv[1], reads, depth + 1)
             if rv[0] == "cast":
                 return self.len_key(rv[2], reads, depth + 1)
@@ -993,6 +1158,10 @@ class FnEval:
         lf = self.linform(key)
         if lf is None:
             return []
+        return self.ub_expand(lf, reads, depth)
+
+    def ub_expand(self, lf, reads, depth=0):
+        """Upper-bound alternatives of a linear form (atoms that are min(a, b) replaced by either argument)."""
         out = [lf]
         for atom, coef in list(lf[0].items()):
             if coef <= 0 or atom[0] != "l" or depth > 2:
@@ -1055,6 +1224,8 @@ class FnEval:
             if v_ < 0:
                 return False
             if v_ > 0:
+                if k_[0] in ("len", "lenl"):
+                    continue        # lengths are non-negative
                 if k_[0] != "l":
                     return False
                 td = self.ty(k_[1])
